@@ -23,12 +23,14 @@ def actOf? : Term → Option WAct
   | .atom "ka-timer" => some .kaTimer
   | .atom "reset" => some .reset
   | .atom "bfd-down" => some .bfdDown
+  | .list [.atom "wait", d] => (asNat? d).map .wait
   | _ => none
 
 /-- Same well-formedness as the harness: field widths of OPEN / NOTIFICATION. -/
 def actOk : WAct → Bool
   | .open o => o.asn ≤ 4294967295 && o.hold ≤ 65535 && o.rid ≤ 4294967295
   | .notification c s => c ≤ 255 && s ≤ 255
+  | .wait d => d ≤ 200000
   | _ => true
 
 def wevOf? : Term → Option (Role × WAct)
@@ -91,9 +93,20 @@ def tmOf? (name : String) : Term → Option (Option Tm)
       pure (some { holdSet := (← setOf? hs), hold := hd, kaSet := (← setOf? ks), ka := kd, emptySlot := he || ke })
   | _ => none
 
+def firedT (l : List (Nat × Role × Bool)) : Term :=
+  tag "fired" (l.map fun (t, r, h) => list [nat t, roleT r, sym (if h then "hold" else "ka")])
+def firedOf? : Term → Option (List (Nat × Role × Bool))
+  | .list (.atom "fired" :: l) => l.mapM fun
+      | .list [t, r, .atom k] => do
+          if k != "hold" && k != "ka" then none
+          pure ((← asNat? t), (← roleOf? r), k == "hold")
+      | _ => none
+  | _ => none
+
 def wstepT (timers : Bool) (s : WStep) : Term :=
   list ([kindT s.kind, tag "to-a" [list (s.toA.map frameT)], tag "to-p" [list (s.toP.map frameT)],
-         stateT s.stA, stateT s.stP] ++ (if timers then [tmT "A" s.tmA, tmT "P" s.tmP] else []))
+         stateT s.stA, stateT s.stP] ++ (if timers then [tmT "A" s.tmA, tmT "P" s.tmP] else [])
+        ++ (if s.fired.isEmpty then [] else [firedT s.fired]))
 
 def anomalyOf? : Term → Option String
   | .atom "storm" => some "driver-does-not-come-to-rest"
@@ -105,12 +118,18 @@ def wstepOf? (timers : Bool) : Term → Option WStep
       let base : WStep :=
         { kind := (← kindOf? k), toA := (← fa.mapM frameOf?), toP := (← fp.mapM frameOf?),
           stA := (← stateOf? a), stP := (← stateOf? p), tmA := none, tmP := none }
+      let tail (base : WStep) (more : List Term) : Option WStep :=
+        match more with
+        | f :: more' =>
+            match firedOf? f with
+            | some l => do pure { base with fired := l, anomalies := (← more'.mapM anomalyOf?) }
+            | none => do pure { base with anomalies := (← more.mapM anomalyOf?) }
+        | [] => some base
       if timers then
         match rest with
-        | ta :: tp :: more =>
-            pure { base with tmA := (← tmOf? "A" ta), tmP := (← tmOf? "P" tp), anomalies := (← more.mapM anomalyOf?) }
+        | ta :: tp :: more => tail { base with tmA := (← tmOf? "A" ta), tmP := (← tmOf? "P" tp) } more
         | _ => none
-      else pure { base with anomalies := (← rest.mapM anomalyOf?) }
+      else tail base rest
   | _ => none
 
 def wireObsT (timers : Bool) (tr : List WStep) : Term := tag "wire-obs" (tr.map (wstepT timers))
